@@ -231,6 +231,25 @@ def check(case):
         comps_after = sorted(sorted(x.name for x in c) for c in g.connected_components())
         if len(comps_after) != len(comps_before):
             fail("components-not-preserved", "%s -> %s" % (comps_before, comps_after))
+        # the same graph as GFA2 (every segment has a length): merging there gives a valid GFA2 graph which, read as GFA1, is the merged GFA1 graph
+        if all(sq != "*" or any(t.startswith("LN:") for t in f[3:]) for f in fs if f[0] == "S" for sq in [f[2]]) and not any(f[0] == "P" for f in fs):
+            try:
+                g2 = gfapy.Gfa(lines, vlevel=1).to_gfa2()
+            except gfapy.Error:
+                g2 = None                                          # no GFA2 form (unspecified overlaps, '=' operations): subject of C06
+            try:
+                if g2 is None:
+                    raise StopIteration
+                g2.merge_linear_paths()
+                t2 = str(g2)
+                back = gfapy.Gfa(t2, vlevel=3).to_gfa1()            # level 3: every position of every edge is checked against its segment
+                bs, bl = graph_of(back)
+                if (bs, strip_cigar(bl)) != (gs, strip_cigar(gl)):
+                    fail("gfa2-merge-differs-from-gfa1-merge", "GFA2 then GFA1: %s %s; GFA1: %s %s" % (bs, sorted(map(str, strip_cigar(bl).items())), gs, sorted(map(str, strip_cigar(gl).items()))))
+            except StopIteration:
+                pass
+            except gfapy.Error as e:
+                fail("gfa2-merge-raises-%s" % type(e).__name__, harness.short(e, 200))
         t1 = str(g)
         if g.linear_paths():
             fail("not-idempotent:linear-paths-remain", str([[str(x) for x in p] for p in g.linear_paths()]))
@@ -257,7 +276,8 @@ def cases(tier, seed):
         table = SEQ_IUPAC if rng.random() < 0.4 else SEQ
         lines = []
         for s in segs:
-            lines.append("S\t%s\t%s" % (s, table[s] if with_seq else "*"))
+            sq = table[s] if with_seq and rng.random() < 0.85 else "*"     # also chains in which only some sequences are known
+            lines.append("S\t%s\t%s%s" % (s, sq, "\tLN:i:6" if sq == "*" and rng.random() < 0.5 else ""))
         m = rng.randrange(1, 6)
         seen = set()
         for _ in range(m):
@@ -290,6 +310,6 @@ if __name__ == "__main__":
     res = harness.run(cs, check,
                       rule="seeded GFA1 graphs: 2-5 segments (with 6-base sequences or '*'), 1-5 links with random orientations (self-links, hairpins, branching, cycles), overlaps '*' or match-only, in a third of the graphs a path over one link (either direction, '*' or the link's overlap) inserted at a random position, a quarter in shuffled line order; oracle = reference "
                            "implementation on the text: end degrees, maximal chains (compared up to reversal / rotation of a cycle), spelled sequence with overlap trimming, merged name, outward links re-attached to "
-                           "the merged segment's ends (compared up to reversal of each merged segment), components, WF, idempotence",
+                           "the merged segment's ends (compared up to reversal of each merged segment), components, WF, idempotence; when every segment has a length, the graph converted to GFA2 is merged there, re-read at validation level 3 and converted back: same segments and links as the GFA1 merge",
                       bound="<=5 segments, <=5 links", exhaustive=False)
     harness.emit(res)
